@@ -272,6 +272,67 @@ def replay_predictive(kinds, params, times, n_samples, seed):
     return res, ks, rng
 
 
+def replay_population_predictive(rng0, ck=None):
+    """PopulationPredictiveModel.sample against its plan: population draws first (sub-model by sub-model), then, patient
+    by patient, one block per error model — all from ONE generator made from the seed"""
+    import chi
+    kinds = [rng0.choice(['G', 'MG', 'CMG']) for _ in range(rng0.choice([1, 2]))]
+    pm = predictive(len(kinds), kinds)
+    n_par = pm.n_parameters()
+    subs = []
+    for k in range(n_par):
+        # error-model parameters must stay positive: pooled or log-normal dimensions
+        kind = rng0.choice(['G', 'LN', 'P', 'G']) if k < 2 else rng0.choice(['LN', 'P'])
+        subs.append({'kind': kind, 'nd': 1, 'centered': rng0.random() < 0.5, 'n_het': None})
+    S = [Sub(**d) for d in subs]
+    theta = []
+    for s in S:
+        theta += [0.75] if s.kind == 'P' else [0.5, 0.25]
+    n = rng0.choice([1, 2, 3])
+    seed = rng0.randrange(10 ** 6)
+    times = rng0.sample([0.5, 1.0, 2.0, 4.0], rng0.choice([1, 2, 3]))
+    pop = chi.ComposedPopulationModel([s.build() for s in S])
+    ppm = chi.PopulationPredictiveModel(pm, pop)
+    g = np.random.default_rng(seed)
+    got = np.asarray(ppm.sample(theta, times, n_samples=n, seed=g, return_df=False))
+    ref = np.random.default_rng(seed)
+    case = {'type': 'pop', 'subs': subs, 'theta': theta, 'chis': None, 'n': n, 'seed': seed, 'composed': True,
+            'fix_first': False}
+    eta, _ = c06.pop_replay(case, rng=ref)
+    psi = np.empty_like(eta)
+    for j, s in enumerate(S):
+        if s.kind == 'P' or s.centered:
+            psi[:, j] = eta[:, j] if s.kind != 'P' else 0.75
+        else:
+            psi[:, j] = 0.5 + 0.25 * eta[:, j] if s.kind == 'G' else np.exp(0.5 + 0.25 * eta[:, j])
+    ts = np.sort(times)
+    want = np.empty((len(kinds), len(ts), n))
+    for p in range(n):
+        out = np.asarray(toy(len(kinds)).simulate(psi[p, :2], ts))
+        k0 = 2
+        for o, kind in enumerate(kinds):
+            npar = 2 if kind == 'CMG' else 1
+            q = psi[p, k0:k0 + npar]
+            k0 += npar
+            M = out[o][:, None]
+            shape = (len(ts), 1)
+            if kind == 'G':
+                v = M + (0 + q[0] * ref.standard_normal(shape))
+            elif kind == 'MG':
+                v = M + M * (0 + q[0] * ref.standard_normal(shape))
+            else:
+                z1 = ref.standard_normal(shape)
+                z2 = ref.standard_normal(shape)
+                v = M + (0 + q[0] * z1) + M * (0 + q[1] * z2)
+            want[o, :, p] = v[:, 0]
+    if got.shape != want.shape or not np.allclose(got, want, rtol=1e-12, atol=0):
+        return ('PopulationPredictiveModel(%s over %s).sample(seed=%d) is not its plan applied to the primitive stream of '
+                'that seed' % (kinds, [s.describe() for s in S], seed))
+    if g.bit_generator.state != ref.bit_generator.state:
+        return 'after PopulationPredictiveModel.sample the Generator is not where the plan ends'
+    return None
+
+
 def independence(kinds):
     """standardised noise of a PredictiveModel with identical error models: outputs / times / samples"""
     n = 4000
@@ -315,6 +376,8 @@ def rows_independent(name, x):
 
 
 def oracle(case):
+    if case.get('type') == 'pop replay':
+        return replay_population_predictive(random.Random(case['seed']))
     rng = random.Random(case['seed'])
     eps = entry_points(rng)
     for name, make, gen_ok in eps:
@@ -386,6 +449,16 @@ def run(ck):
         payload[label] = case
         starts = [sum(ks[:i]) for i in range(len(ks))]
         exprs.append((label, 'c16_case %d %s %s %d' % (seed, coq_list(ks), coq_list(starts), sum(ks))))
+    for j in range(ck.n(30, 200)):
+        seed = ck.rng.randrange(10 ** 9)
+        try:
+            d = replay_population_predictive(random.Random(seed))
+        except Exception as e:
+            d = 'PopulationPredictiveModel replay raised %s: %s' % (type(e).__name__, e)
+        ck.count('plan replay PopulationPredictiveModel')
+        ck.case({'type': 'pop replay', 'seed': seed})
+        if d:
+            ck.violation('C16|replay', d, {'seed': seed, 'type': 'pop replay'})
     for kinds in (['G', 'G'], ['MG', 'MG', 'MG'], ['LN', 'LN']):
         d = independence(kinds)
         ck.count('independence tests')
